@@ -4,6 +4,9 @@ import io
 import random
 import time
 
+import gc
+import weakref
+
 import numpy as np
 
 LEVEL = "exploration"
@@ -32,7 +35,8 @@ class BlockMonitor(object):
         self.first = {}
         self.calls = 0
         self.viol = []
-        self._keep = []
+        self.alive = {}
+        self.records = []      # (partition, weakref to the decomposed point) in order of first decomposition
 
     def install(self):
         from PEPit.block_partition import BlockPartition
@@ -46,18 +50,22 @@ class BlockMonitor(object):
             res = orig(part, point, block_number)
             mon.calls += 1
             key = (id(part), id(point), block_number)
-            mon._keep.append((part, point))
+            ref = mon.alive.get((id(part), id(point)))
+            if ref is None or ref() is not point:
+                # first time this (partition, point) is seen (or a new object reuses the address of a dead one)
+                mon.alive[(id(part), id(point))] = weakref.ref(point)
+                for k_ in list(mon.first):
+                    if k_[0] == id(part) and k_[1] == id(point):
+                        del mon.first[k_]
+                mon.records.append((part, weakref.ref(point)))
             if key in mon.first:
                 if mon.first[key] is not res:
                     mon.v("repeated_request_returns_other_object", "asking again for block %d returned another object" % block_number)
             else:
                 mon.first[key] = res
-            blocks = part.blocks_dict.get(point)
-            if blocks is None or len(blocks) != part.d:
-                mon.v("wrong_number_of_blocks", "blocks_dict holds %r blocks for d=%d" % (None if blocks is None else len(blocks), part.d))
-                return res
+            blocks = [orig(part, point, k_) for k_ in range(part.d)]     # public API only
             if blocks[block_number] is not res:
-                mon.v("returned_block_not_recorded", "returned block is not the recorded one")
+                mon.v("returned_block_not_recorded", "asking for all blocks gives another object for block %d" % block_number)
             tot = {}
             for b in blocks:
                 for k, c in canon.point_coeffs(b).items():
@@ -109,12 +117,14 @@ def build_model(rng):
     pep = PEP()
     nparts = rng.choice([1, 1, 1, 2, 3])
     ds = [rng.choice([1, 2, 2, 3, 3, 4]) for _ in range(nparts)]
-    parts = [pep.declare_block_partition(d=d_) for d_ in ds]
+    from PEPit.block_partition import BlockPartition as BP
+    via_ctor = [rng.random() < 0.2 for _ in ds]
+    parts = [BP(d_) if c_ else pep.declare_block_partition(d=d_) for d_, c_ in zip(ds, via_ctor)]   # both documented ways
     f = pep.declare_function(SmoothConvexFunction, L=1.0)
     pts = [pep.set_initial_point() for _ in range(rng.randint(1, 3))]
     if rng.random() < 0.5:
         pts.append(f.gradient(pts[0]))
-    desc = {"d": ds, "requests": [], "n_comb": 0}
+    desc = {"d": ds, "requests": [], "n_comb": 0, "via_constructor": via_ctor, "temporaries": 0}
     decomposed = []
     nreq = rng.randint(0, 14)
     for _ in range(nreq):
@@ -127,6 +137,13 @@ def build_model(rng):
                 p = t if p is None else p + t
             pts.append(p)
             desc["n_comb"] += 1
+        elif r < 0.4 and len(pts) >= 2:
+            # blocks of temporary combinations the caller keeps no reference to
+            part = rng.choice(parts)
+            for t in (1.0, 2.0, 3.0):
+                part.get_block(rng.choice(pts) + t * rng.choice(pts), rng.randrange(part.d))
+                desc["temporaries"] += 1
+            gc.collect()
         else:
             part = rng.choice(parts)
             x = rng.choice(pts)
@@ -148,7 +165,7 @@ def build_model(rng):
     xs = f.stationary_point()
     pep.set_initial_condition((pts[0] - xs) ** 2 <= 1)
     pep.set_performance_metric((pts[-1] - xs) ** 2)
-    return pep, parts, desc
+    return pep, parts, desc, pts
 
 
 def run_shard(spec):
@@ -169,11 +186,24 @@ def run_shard(spec):
         calls0 = mon.calls
         nv0 = len(mon.viol)
         try:
-            pep, parts, desc = build_model(rng)
+            pep, parts, desc, pts = build_model(rng)
             n0 = len(bd.records)
             with contextlib.redirect_stdout(io.StringIO()):
                 pep.solve(verbose=0)
             rec = bd.records[n0]
+            if rng.random() < 0.4:
+                # decompose more points, then solve the same object again: the relations of THAT solve are judged
+                for _ in range(rng.randint(1, 3)):
+                    part = rng.choice(parts)
+                    x = rng.choice(pts) if rng.random() < 0.5 else pep.set_initial_point()
+                    pts.append(x)
+                    part.get_block(x, rng.randrange(part.d))
+                n0 = len(bd.records)
+                with contextlib.redirect_stdout(io.StringIO()):
+                    pep.solve(verbose=0)
+                rec = bd.records[n0]
+                desc["second_solve"] = True
+                counters["second_solves"] = counters.get("second_solves", 0) + 1
         except Exception as e:
             counters["exceptions:" + type(e).__name__] = counters.get("exceptions:" + type(e).__name__, 0) + 1
             if len(samples) < 3:
@@ -181,6 +211,7 @@ def run_shard(spec):
                 samples.append({"exception": traceback.format_exc()[-600:], "rng": sd})
             continue
         counters["models"] += 1
+        DECOMP = {}
         local_viol = list(mon.viol[nv0:])
         # every declaration is a NEW partition: distinct objects, all registered, with the declared number of blocks
         if len({id(p) for p in parts}) != len(parts) or len(BlockPartition.list_of_partitions) < len(parts) or \
@@ -190,7 +221,7 @@ def run_shard(spec):
                                        % (len(parts), desc["d"], len({id(p) for p in parts}), len(BlockPartition.list_of_partitions))})
         label, idx = canon.sym_label_factory()
         sent_ids = {id(o) for k, o, t in rec["sent"] if k == "c"}
-        for pi, part in enumerate(BlockPartition.list_of_partitions):
+        for pi, part in enumerate(list(parts) + [p_ for p_ in BlockPartition.list_of_partitions if not any(p_ is q_ for q_ in parts)]):
             got = {}
             for c in part.list_of_constraints:
                 if id(c) not in sent_ids:
@@ -201,7 +232,17 @@ def run_shard(spec):
                 if k is not None:
                     got[k] = got.get(k, 0) + 1
             ref = set()
-            items = list(part.blocks_dict.items())
+            try:
+                items = [(x_, b_) for x_, b_ in part.blocks_dict.items() if isinstance(x_, Point)]
+                if len(items) != len(part.blocks_dict):
+                    raise TypeError
+            except Exception:
+                # another internal representation: rebuild from the monitor's own record through the public API
+                items = []
+                for (p_, wr) in mon.records:
+                    x_ = wr()
+                    if p_ is part and x_ is not None and not any(x_ is y_ for y_, _b in items):
+                        items.append((x_, [part.get_block(x_, k_) for k_ in range(part.d)]))
             for xi, bi in items:
                 for xj, bj in items:
                     for k in range(part.d):
@@ -210,6 +251,7 @@ def run_shard(spec):
                                 key = bilinear_key(bi[k], bj[l], label)
                                 if key is not None:
                                     ref.add(key)
+            DECOMP[id(part)] = items
             counters["partition_constraints_compared"] += len(got) + len(ref)
             if part.d == 1:
                 counters["one_block_partitions"] += 1
@@ -240,7 +282,7 @@ def run_shard(spec):
             coord[id(part)] = np.array(assign)
         block_leaf = {}
         for part in BlockPartition.list_of_partitions:
-            for x, blocks in part.blocks_dict.items():
+            for x, blocks in DECOMP.get(id(part), []):
                 for k, b in enumerate(blocks[:-1]):
                     block_leaf[id(b)] = (part, x, k)
         vals = {}
@@ -256,7 +298,7 @@ def run_shard(spec):
             else:
                 vals[id(leaf)] = np.array([rng.uniform(-1, 1) for _ in range(n)])
         for part in BlockPartition.list_of_partitions:
-            for x, blocks in part.blocks_dict.items():
+            for x, blocks in DECOMP.get(id(part), []):
                 xv = canon.point_value_assign(x, vals, n)
                 for k, b in enumerate(blocks):
                     counters["concrete_evaluations"] += 1
@@ -272,7 +314,7 @@ def run_shard(spec):
                                        "what": "a sent partition constraint evaluates to %.3e on real coordinate projections" % v})
                     break
         counters["get_block_calls_checked"] = mon.calls
-        sigs.add("%s|%d|%d|%s" % (desc["d"], sum(len(p.blocks_dict) for p in BlockPartition.list_of_partitions),
+        sigs.add("%s|%d|%d|%s" % (desc["d"], sum(len(v_) for v_ in DECOMP.values()),
                                   desc["n_comb"], "".join(str(k) for _, k in desc["requests"][:6])))
         if len(samples) < 2:
             samples.append({"rng": sd, "desc": desc,
